@@ -73,11 +73,11 @@ Definition dec_int_value (r : dec) (q : N) : Prop :=
   dec_has_fract r = false /\ d_mant r / pow10 (d_scale r) = q /\ d_mant r = q * pow10 (d_scale r).
 
 Lemma dec_mul_int a n q :
-  d_scale a <= 28 -> d_mant a < B96 -> n < B96 -> q < B96 ->
+  d_scale a <= 28 -> n < B96 -> q < B96 ->
   d_mant a * n = q * 10 ^ d_scale a ->
   exists r, dec_mul a (dec_of_N n) = Some r /\ dec_int_value r q /\ (d_neg a = false -> d_neg r = false).
 Proof.
-  intros Hs Hma Hn Hq Hprod. unfold dec_mul, dec_of_N. cbn [d_mant d_scale d_neg].
+  intros Hs Hn Hq Hprod. unfold dec_mul, dec_of_N. cbn [d_mant d_scale d_neg].
   rewrite N.add_0_r. rewrite xorb_false_r.
   destruct (N.eqb_spec (d_mant a) 0) as [Hz|Hnz]; cbn [orb].
   { exists dec_zero. assert (q = 0). { rewrite Hz in Hprod. pose proof (pow10_pos (d_scale a)). nia. }
@@ -228,3 +228,73 @@ Qed.
 
 Lemma int_value_pos r q : dec_int_value r q -> d_mant r <> 0 -> 1 <= q.
 Proof. intros (_ & _ & Hm) Hnz. destruct (N.eq_dec q 0) as [->|]; [rewrite N.mul_0_l in Hm; contradiction|lia]. Qed.
+
+(* ---- well-formedness (scale <= 28, mantissa < 2^96) of products ---- *)
+Lemma least_d_stop fuel : forall v d0, least_d fuel v d0 < d0 + N.of_nat fuel -> v / pow10 (least_d fuel v d0) < B96.
+Proof.
+  induction fuel as [|f IH]; intros v d0 Hlt; cbn [least_d] in *; [lia|].
+  destruct (N.ltb_spec (v / pow10 d0) B96) as [Hok|Hbig]; [exact Hok|]. apply IH. lia.
+Qed.
+Lemma rhe_le v p : p <> 0 -> rhe v p <= v / p + 1.
+Proof. intros Hp. unfold rhe. cbv zeta. destruct (_ || _); generalize (v / p); intros q; lia. Qed.
+Lemma rhu_le v p : p <> 0 -> rhu v p <= v / p + 1.
+Proof. intros Hp. unfold rhu. cbv zeta. destruct (_ <=? _); generalize (v / p); intros q; lia. Qed.
+
+Lemma rescale_wf v s m' s' : s <= 56 -> rescale v s = Some (m', s') -> s' <= 28 /\ m' < B96.
+Proof.
+  intros Hs. unfold rescale. set (d := least_d 64 v (s - 28)). cbv zeta.
+  pose proof (least_d_ge 64 v (s - 28)) as Hge. fold d in Hge.
+  destruct (N.ltb_spec s d) as [Hgt|Hle]; [discriminate|].
+  assert (Hfit : v / pow10 d < B96). { apply least_d_stop. fold d. change (N.of_nat 64) with 64. lia. }
+  destruct (N.eqb_spec d 0) as [Hz|Hnz].
+  - intros H. injection H as <- <-. rewrite Hz in Hfit. unfold pow10 in Hfit. cbn in Hfit. rewrite N.div_1_r in Hfit.
+    split; [lia|exact Hfit].
+  - pose proof (rhe_le v (pow10 d) (pow10_nz d)) as Hr.
+    destruct (N.ltb_spec (rhe v (pow10 d)) B96) as [Hlt|Hov].
+    + intros H. injection H as <- <-. split; [lia|exact Hlt].
+    + destruct (s - d =? 0) eqn:E; [discriminate|]. intros H. injection H as <- <-. apply N.eqb_neq in E.
+      split; [lia|]. pose proof (rhe_le (rhe v (pow10 d)) 10) as Hr2.
+      assert (Hd : rhe v (pow10 d) / 10 <= B96 / 10) by (apply N.div_le_mono; [discriminate|lia]).
+      assert (Hc : B96 / 10 = 7922816251426433759354395033) by reflexivity. rewrite Hc in Hd.
+      unfold B96. assert (10 <> 0) by discriminate. specialize (Hr2 H). lia.
+Qed.
+
+Lemma dec_mul_wf a b r : dec_wf a -> dec_wf b -> dec_mul a b = Some r -> dec_wf r.
+Proof.
+  intros [Hsa Hma] [Hsb Hmb]. unfold dec_mul, dec_wf.
+  destruct ((d_mant a =? 0) || (d_mant b =? 0)); [intros Hx; injection Hx as <-; cbn; unfold B96; lia|].
+  destruct ((d_mant a <? two32) && (d_mant b <? two32)) eqn:Esm.
+  - apply andb_prop in Esm as [E1 E2]. apply N.ltb_lt in E1, E2. unfold two32 in *.
+    assert (Hv : d_mant a * d_mant b < 18446744073709551616) by nia.
+    destruct (N.ltb_spec 28 (d_scale a + d_scale b)) as [Hgt|Hle].
+    + destruct (47 <? d_scale a + d_scale b); intros Hx; injection Hx as <-; cbn; [unfold B96; lia|].
+      pose proof (rhe_le (d_mant a * d_mant b) (pow10 (d_scale a + d_scale b - 28)) (pow10_nz _)).
+      assert (d_mant a * d_mant b / pow10 (d_scale a + d_scale b - 28) <= d_mant a * d_mant b).
+      { apply N.div_le_upper_bound; [apply pow10_nz|]. pose proof (pow10_pos (d_scale a + d_scale b - 28)). unfold pow10. nia. }
+      unfold B96. lia.
+    + intros Hx. injection Hx as <-. cbn. unfold B96. lia.
+  - destruct (rescale (d_mant a * d_mant b) (d_scale a + d_scale b)) as [[m' s']|] eqn:E; [|discriminate].
+    intros Hx. injection Hx as <-. cbn. eapply rescale_wf; [|exact E]. lia.
+Qed.
+Lemma dec_of_N_wf n : n < B96 -> dec_wf (dec_of_N n).
+Proof. intros H. split; cbn; [lia|exact H]. Qed.
+Lemma dec_from_u128_ok n d : dec_from_u128 n = Some d -> n < B96 /\ d = dec_of_N n.
+Proof. unfold dec_from_u128. destruct (N.ltb_spec n B96) as [Hlt|Hge]; [|discriminate]. intros Hx. injection Hx as <-. auto. Qed.
+
+Lemma round_to_u128_lt a q : dec_wf a -> dec_to_u128 (dec_round0 a) = Some q -> q < B96.
+Proof.
+  intros [Hs Hm]. unfold dec_round0, dec_to_u128.
+  destruct (N.eqb_spec (d_scale a) 0) as [Hz|Hnz].
+  - destruct (d_neg a); [discriminate|]. intros Hx. injection Hx as <-. rewrite Hz. unfold pow10. cbn. rewrite N.div_1_r. exact Hm.
+  - destruct (d_mant a =? 0).
+    + cbn. destruct (d_neg a); [discriminate|]. intros Hx. injection Hx as <-. cbn. unfold B96. lia.
+    + cbn [d_neg d_mant d_scale]. destruct (if rhu _ _ =? 0 then false else d_neg a); [discriminate|].
+      intros Hx. injection Hx as <-. change (pow10 0) with 1. rewrite N.div_1_r.
+      pose proof (rhu_le (d_mant a) (pow10 (d_scale a)) (pow10_nz _)) as Hr.
+      assert (Hd : d_mant a / pow10 (d_scale a) <= d_mant a / 10).
+      { apply N.div_le_compat_l. split; [lia|]. unfold pow10. change 10 with (10 ^ 1) at 1.
+        apply N.pow_le_mono_r; lia. }
+      assert (Hd2 : d_mant a / 10 <= B96 / 10) by (apply N.div_le_mono; [discriminate|lia]).
+      assert (Hc : B96 / 10 = 7922816251426433759354395033) by reflexivity. rewrite Hc in Hd2.
+      unfold B96. lia.
+Qed.
